@@ -242,7 +242,8 @@ theorem removeColumn_idx (giv : α → α → α × α × α) (s : LMQR α) (h :
     (s.removeColumn giv).qIdx = s.qIdx - 1 ∧ (s.removeColumn giv).rStart = (s.rStart + 1) % s.m ∧
     (s.removeColumn giv).rEnd = s.rEnd ∧ (s.removeColumn giv).n = s.n ∧
     (s.removeColumn giv).m = s.m := by
-  simp only [LMQR.removeColumn, lmqrRemoveIdx, lmqrRemoveInit, lmqrSucc_eq h.start_lt, and_self]
+  simp only [LMQR.removeColumn, LMQR.updateEig, LMQR.removeCore, lmqrRemoveIdx, lmqrRemoveInit,
+    lmqrSucc_eq h.start_lt, and_self]
 
 theorem removeColumn_ring (giv : α → α → α × α × α) (s : LMQR α) (h : RingInv s) (hK : 0 < s.qIdx) :
     RingInv (s.removeColumn giv) := by
@@ -256,13 +257,13 @@ theorem removeColumn_Q (giv : α → α → α × α × α) (s : LMQR α) :
     (s.removeColumn giv).Q = Mat.ofFn s.n s.m (sweepLoop giv s.m s.rEnd s.qIdx s.m
       { r := 0, c := lmqrSucc s.m s.rStart, Q := s.Q.get, R := s.R.get, minEig := s.minEig,
         maxEig := s.maxEig }).Q := by
-  simp only [LMQR.removeColumn, lmqrRemoveIdx, lmqrRemoveInit]
+  simp only [LMQR.removeColumn, LMQR.updateEig, LMQR.removeCore, lmqrRemoveIdx, lmqrRemoveInit]
 
 theorem removeColumn_R (giv : α → α → α × α × α) (s : LMQR α) :
     (s.removeColumn giv).R = Mat.ofFn s.m s.m (sweepLoop giv s.m s.rEnd s.qIdx s.m
       { r := 0, c := lmqrSucc s.m s.rStart, Q := s.Q.get, R := s.R.get, minEig := s.minEig,
         maxEig := s.maxEig }).R := by
-  simp only [LMQR.removeColumn, lmqrRemoveIdx, lmqrRemoveInit]
+  simp only [LMQR.removeColumn, LMQR.updateEig, LMQR.removeCore, lmqrRemoveIdx, lmqrRemoveInit]
 
 /-- Q'R' = A without its first column; R' is used only through its upper triangle (`getR`). -/
 theorem removeColumn_represents (giv : α → α → α × α × α) (hg : GivensOK giv) (s : LMQR α)
